@@ -202,6 +202,9 @@ def _first_error(out: str) -> str:
 
 # ---- Gallina literal emission --------------------------------------------------------------
 def g_str(s: str) -> str:
+    """Code-point list literal; compact UTF-8 string form where the text allows it."""
+    if len(s) >= 2 and all(c != "\x00" and c != "\r" and not (0xD800 <= ord(c) <= 0xDFFF) for c in s):
+        return '(U8 "' + s.replace('"', '""') + '"%string)'
     return "[" + ";".join(str(ord(c)) for c in s) + "]"
 
 
@@ -242,7 +245,7 @@ class CoqEval:
         """header: Require lines; body: definitions ending with Eval vm_compute commands."""
         f = self.dir / f"cases_{self.pid}_{len(self.files)}.v"
         f.write_text(
-            "From Coq Require Import List NArith ZArith Bool.\nImport ListNotations.\n"
+            "From Coq Require Import String.\nFrom Coq Require Import List NArith ZArith Bool.\nImport ListNotations.\n"
             + header
             + "\nSet Printing Width 1000000.\nSet Printing Depth 1000000.\nLocal Open Scope N_scope.\n"
             + body
